@@ -25,6 +25,9 @@ type Cfg struct {
 	Interval uint32 `json:"interval_ms,omitempty"`
 	// Batch: tokens per request of the saturating demand (0 = 1)
 	Batch uint32 `json:"batch,omitempty"`
+	// DefaultMs: the resource's default statistic interval as configured for the process (0 = 1000); a rule without
+	// an interval of its own is counted per that interval
+	DefaultMs uint32 `json:"default_stat_ms,omitempty"`
 	// memory adaptive
 	LowT    int64 `json:"low_t,omitempty"`
 	HighT   int64 `json:"high_t,omitempty"`
@@ -41,7 +44,7 @@ func (P) Engine() string { return "E1" }
 
 func (P) Describe() harness.Description {
 	return harness.Description{
-		MustHit: []string{"cold_start_checked", "warmed_up_checked", "memory_reading_injected", "statistic_window_of_several_seconds", "saturating_demand_in_requests_of_several_tokens"},
+		MustHit: []string{"cold_start_checked", "warmed_up_checked", "memory_reading_injected", "statistic_window_of_several_seconds", "saturating_demand_in_requests_of_several_tokens", "statistic_window_of_a_fraction_of_a_second", "default_statistic_of_two_seconds"},
 		Level:   "exploration",
 		Rule: "case = warm-up rule (threshold 0.5-60 incl. fractional and below the cold factor, period 1-10 s, cold factor 0 (default), 2-5, now and then 10-100, statistic interval 1 s or 2-5 s) with a demand history of phases in virtual seconds (idle, saturating demand at four instants per second, steady single-token demand once per second), or a memory-adaptive rule (thresholds, water marks) with a sweep of injected memory readings. " +
 			"Warm-up: admitted tokens in every aligned statistic window <= threshold; first second after an idle of >= 2*period+2 s admits <= ceil(T/coldFactor)+1; the last second of a saturating phase of >= 2*period+5 s admits >= floor(T); a steady single-token demand of >= 4*period+10 s is admitted at least once when T >= 1; the effective threshold (overlay accessor) is finite, >= 0 and <= T. " +
@@ -100,7 +103,19 @@ func (P) Gen(rng *sim.Rng, tier string) *harness.Case {
 		if rng.Chance(0.25) {
 			cfg.Batch = uint32(rng.Range(2, 3)) // the saturating demand comes in requests of several tokens
 		}
-		for n := rng.Range(3, 8); len(ops) < n; {
+		if cfg.Interval == 0 && rng.Chance(0.1) {
+			cfg.DefaultMs = 2000 // the process is configured with a default statistic of 2 s
+		}
+		if rng.Chance(0.03) {
+			// an interval whose length in seconds does not divide evenly: a count turned into a rate per second and
+			// back must still be that count (3 / 0.9 * 0.9 is not 3 in floating point)
+			cfg.Interval, cfg.T, cfg.Cold, cfg.Batch, cfg.DefaultMs = 900, []float64{9, 18, 36}[rng.Intn(3)], 3, 0, 0
+			cfg.Period = uint32([]int{3, 9}[rng.Intn(2)])
+		}
+		if cfg.Interval == 900 {
+			ops = append(ops, harness.Op{K: "saturate", N: uint64(2*int(cfg.Period) + 12)})
+		}
+		for n := rng.Range(3, 8); len(ops) < n && cfg.Interval != 900; {
 			switch rng.Intn(3) {
 			case 0:
 				ops = append(ops, harness.Op{K: "idle", N: uint64(rng.Range(1, 3*int(cfg.Period)+4))})
@@ -150,7 +165,11 @@ func (P) Exec(c *harness.Case) *harness.Outcome {
 	if len(c.Callers) == 0 {
 		return o
 	}
-	env := harness.Reset(cfg.Origin*1e6, harness.DefaultGeometry())
+	geo := harness.DefaultGeometry()
+	if cfg.DefaultMs == 2000 {
+		geo.MetricSamples, geo.MetricInterval = 4, 2000
+	}
+	env := harness.Reset(cfg.Origin*1e6, geo)
 	clk := env.Clock
 	if cfg.Memory {
 		execMemory(c, o, &cfg, clk)
@@ -175,10 +194,18 @@ func (P) Exec(c *harness.Case) *harness.Outcome {
 	T := cfg.T
 	// W: seconds per statistic window. With the default interval the rule reads the resource's global statistic
 	// (500 ms buckets, sliding); with an interval of its own it has one bucket of that length, aligned to it.
+	Wms, stepMs := uint64(1000), uint64(250) // window and spacing of the demand instants, ms
+	if cfg.Interval == 900 {
+		Wms, stepMs = 900, 300
+		o.Probe("statistic_window_of_a_fraction_of_a_second")
+	}
 	W := 1
 	if cfg.Interval >= 2000 {
 		W = int(cfg.Interval / 1000)
 		o.Probe("statistic_window_of_several_seconds")
+	} else if cfg.Interval == 0 && cfg.DefaultMs == 2000 {
+		W = 2
+		o.Probe("default_statistic_of_two_seconds")
 	}
 	ref := &model.WindowLog{L: 500, I: 10000}
 	idleFor := uint64(1 << 30) // seconds without any admission demand (initially: forever)
@@ -212,6 +239,8 @@ func (P) Exec(c *harness.Case) *harness.Outcome {
 		lo, hi := ref.Range(now, 1000)
 		if W > 1 {
 			lo, hi = now-now%uint64(W*1000), now
+		} else if Wms != 1000 {
+			lo, hi = now-now%Wms, now
 		}
 		if s := ref.Sum(model.KPass, lo, hi); float64(s) > T+1e-9 {
 			o.Fail("C11.rate-exceeds-threshold", step, "t=%d %d tokens admitted in the aligned window [%d,%d], configured threshold %v (period %d, cold factor %v)", now, s, lo, hi, T, cfg.Period, cold)
@@ -233,16 +262,20 @@ func (P) Exec(c *harness.Case) *harness.Outcome {
 			lastWindow := 0
 			var recent []int // tokens admitted per window
 			if W > 1 {
+				Wms = uint64(W * 1000)
+			}
+			if Wms != 1000 {
 				// start on a window boundary and run whole windows
-				if r := clk.NowMs() % uint64(W*1000); r != 0 {
-					clk.AdvanceMs(uint64(W*1000) - r)
-					o.SimMs += uint64(W*1000) - r
+				if r := clk.NowMs() % Wms; r != 0 {
+					clk.AdvanceMs(Wms - r)
+					o.SimMs += Wms - r
 				}
 				secs = (secs + W - 1) / W * W
 			}
-			for s := 0; s < secs; s += W {
+			nWin := (uint64(secs)*1000 + Wms - 1) / Wms
+			for s := 0; uint64(s) < nWin; s++ {
 				got := 0
-				for q := 0; q < 4*W; q++ {
+				for q := uint64(0); q < Wms/stepMs; q++ {
 					if !checkEff(step, B) {
 						return o
 					}
@@ -254,8 +287,8 @@ func (P) Exec(c *harness.Case) *harness.Outcome {
 							return o
 						}
 					}
-					clk.AdvanceMs(250)
-					o.SimMs += 250
+					clk.AdvanceMs(stepMs)
+					o.SimMs += stepMs
 				}
 				if s == 0 && idleFor >= uint64(2*int(cfg.Period)+2+2*W) {
 					sawCold = true
